@@ -303,3 +303,142 @@ impl Family for UfFam {
         }
     }
 }
+
+// ================================================================================================
+// Long uncompressed chains: a second union-find family over a LARGER item domain with a small
+// alphabet (union of every ordered pair, same of every unordered pair, merge of every single-edge
+// SingletonMap delta), explored to closure. Bugs in `find` that need a walk of >= 4 hops are only
+// reachable here (the 3/4-item family above never builds a path longer than 3).
+// ================================================================================================
+pub struct UfChainFam {
+    pub n: usize,
+}
+impl UfChainFam {
+    fn helper(&self) -> UfFam {
+        UfFam { n: self.n, perms: vec![] }
+    }
+}
+/// longest parent chain (number of hops from an item to its root) in a forest
+fn max_depth(pm: &BTreeMap<usize, usize>) -> u64 {
+    let mut best = 0u64;
+    for &x in pm.keys() {
+        let (mut cur, mut d) = (x, 0u64);
+        while let Some(&p) = pm.get(&cur) {
+            if p == cur || d > pm.len() as u64 {
+                break;
+            }
+            cur = p;
+            d += 1;
+        }
+        best = best.max(d);
+    }
+    best
+}
+impl Family for UfChainFam {
+    type Recv = UfR;
+    type Model = Vec<u8>;
+    fn name(&self) -> String {
+        "UnionFind-chains".into()
+    }
+    fn inits(&self) -> Vec<Op> {
+        vec![[0, 0, 0, 0], [0, 1, 0, 0]]
+    }
+    fn ops(&self) -> Vec<Op> {
+        let n = self.n as i64;
+        let mut v = vec![];
+        for a in 0..n {
+            for b in 0..n {
+                v.push([3, a, b, 0]); // union(a,b), every ordered pair
+                v.push([1, a, b, 0]); // merge(SingletonMap a->b), every ordered pair
+                if a < b {
+                    v.push([4, a, b, 0]); // same(a,b), every unordered pair
+                }
+            }
+        }
+        v
+    }
+    fn init(&self, op: &Op) -> (UfR, Vec<u8>) {
+        (if op[1] == 0 { UfR::H(Default::default()) } else { UfR::B(Default::default()) }, (0..self.n as u8).collect())
+    }
+    fn depth_override(&self) -> Option<usize> {
+        Some(1000) // to closure
+    }
+    fn apply(&self, r: UfR, op: &Op, m: &Vec<u8>) -> Result<UfR, String> {
+        let (a, b) = (op[1] as usize, op[2] as usize);
+        Ok(match op[0] {
+            1 => {
+                let d = || UnionFind::new(SingletonMap(a, Cell::new(b)));
+                match r {
+                    UfR::H(mut u) => { u.merge(d()); UfR::H(u) }
+                    UfR::B(mut u) => { u.merge(d()); UfR::B(u) }
+                }
+            }
+            3 => {
+                let (r2, got) = match r {
+                    UfR::H(mut u) => { let g = u.union(a, b).into_reveal(); (UfR::H(u), g) }
+                    UfR::B(mut u) => { let g = u.union(a, b).into_reveal(); (UfR::B(u), g) }
+                };
+                let want = m[a] != m[b];
+                if got != want {
+                    return Err(format!("union({a},{b}) returned {got} but in the model partition {m:?} the items were {}", if want { "in different classes" } else { "already in the same class" }));
+                }
+                r2
+            }
+            4 => {
+                let got = match &r {
+                    UfR::H(u) => u.same(a, b).into_reveal(),
+                    UfR::B(u) => u.same(a, b).into_reveal(),
+                };
+                let want = m[a] == m[b];
+                if got != want {
+                    return Err(format!("same({a},{b}) returned {got} but the model partition {m:?} says {want}"));
+                }
+                r
+            }
+            _ => unreachable!(),
+        })
+    }
+    fn model(&self, m: &Vec<u8>, op: &Op) -> Vec<u8> {
+        let mut m = m.clone();
+        if op[0] == 1 || op[0] == 3 {
+            model_union(&mut m, op[1] as usize, op[2] as usize);
+        }
+        m
+    }
+    fn alpha(&self, r: &UfR) -> Result<Vec<u8>, String> {
+        self.helper().partition(&UfFam::reveal(r))
+    }
+    fn fingerprint(&self, r: &UfR) -> String {
+        format!("{}{:?}", match r { UfR::H(_) => "HashMap", UfR::B(_) => "BTreeMap" }, UfFam::reveal(r))
+    }
+    fn extra(&self, r: &UfR, m: &Vec<u8>) -> Result<(), String> {
+        let n = self.n;
+        let c = r.clone();
+        match &c {
+            UfR::H(u) => same_table!(u, m, n, "receiver")?,
+            UfR::B(u) => same_table!(u, m, n, "receiver")?,
+        }
+        let after = self.helper().partition(&UfFam::reveal(&c))?;
+        if after != *m {
+            return Err(format!("after calling same() on all pairs the parent map {:?} (was {:?}) denotes {after:?}, model {m:?}", UfFam::reveal(&c), UfFam::reveal(r)));
+        }
+        Ok(())
+    }
+    fn metric(&self, r: &UfR) -> u64 {
+        max_depth(&UfFam::reveal(r))
+    }
+    fn metric_required(&self) -> Option<u64> {
+        Some(self.n as u64 - 1)
+    }
+    fn metric_name(&self) -> &'static str {
+        "longest find path (hops to the root) in the state's parent map"
+    }
+    fn describe(&self, op: &Op) -> String {
+        match op[0] {
+            0 => format!("UnionFind<{}>::default()", if op[1] == 0 { "HashMap" } else { "BTreeMap" }),
+            1 => format!("merge(SingletonMap {}->{})", op[1], op[2]),
+            3 => format!("union({},{})", op[1], op[2]),
+            _ => format!("same({},{})", op[1], op[2]),
+        }
+    }
+}
